@@ -33,7 +33,7 @@ ENGINES = {
 }
 
 def _p(n_quick, n_thorough, comps=None, **kw):
-    d = dict(engine='e1', n=dict(quick=n_quick, thorough=n_thorough), search_s=150)
+    d = dict(engine='e1', n=dict(quick=n_quick, thorough=n_thorough), search_s=45, shrink_batch=64, shrink_s=60)
     if comps is not None:
         d['components'] = comps
     d.update(kw)
